@@ -19,19 +19,22 @@ enum {
     WO_INT_1, WO_INT_M128, WO_INT_128, WO_INT_M32769, WO_INT_2P31, WO_INT_MIN,
     WO_DOUBLE, WO_STR_0, WO_STR_1, WO_STR_127, WO_STR_128, WO_STR_300, WO_STRZ_AB, WO_NAME_A,
     WO_BYT_0, WO_BYT_1, WO_BYT_128, WO_RAW_0, WO_RAW_2, WO_P2W,
+    /* payloads that need the 4-byte length prefix; only used by the "big" pass (capacities around every piece boundary) */
+    WO_STR_40000, WO_BYT_32768,
     /* operations that have no encoding: only "error set, nothing stored" is demanded */
     WO_STR_HUGE, WO_BYT_HUGE, WO_STRZ_NULL, WO_RAW_NULL, WO_RAW_HUGE, WO_RAW_WRAP,
     WO_NOPS
 };
 #define WO_FIRST_NOENC WO_STR_HUGE
+#define WO_FIRST_BIG WO_STR_40000
 static const char *const wo_name[WO_NOPS] = {
     "object_begin", "object_end", "array_begin", "array_end", "true", "false", "int(1)", "int(-128)", "int(128)", "int(-32769)", "int(2^31)",
     "int(INT64_MIN)", "double(-1.5)", "string_with_len(0)", "string_with_len(1)", "string_with_len(127)", "string_with_len(128)",
     "string_with_len(300)", "write_string(\"ab\")", "write_name(\"a\")", "bytes(0)", "bytes(1)", "bytes(128)", "write_raw(0)", "write_raw(2)",
-    "parser_to_writer([1])", "string_with_len(INT32_MAX+1)", "bytes(SIZE_MAX)", "write_string(NULL)", "write_raw(NULL)", "write_raw(len=SIZE_MAX)", "write_raw(len=SIZE_MAX-1: counter+len wraps)"
+    "parser_to_writer([1])", "string_with_len(40000)", "bytes(32768)", "string_with_len(INT32_MAX+1)", "bytes(SIZE_MAX)", "write_string(NULL)", "write_raw(NULL)", "write_raw(len=SIZE_MAX)", "write_raw(len=SIZE_MAX-1: counter+len wraps)"
 };
 
-static uint8_t wexp_payload[400];       /* patterned source bytes */
+static uint8_t wexp_payload[40100];       /* patterned source bytes */
 static uint8_t wexp_p2w_doc[] = { 0x42, 0x42, 0x10, 0x01, 0x43, 0x43 };     /* [[1]] : the inner [1] is what parser_to_writer copies */
 
 typedef struct { size_t off, len; } wpiece;
@@ -57,11 +60,11 @@ static int wexp_ref_op(int op, vf_doc *ref, wpiece *pc)
     case WO_INT_MIN: vf_put_int(ref, 0x10, INT64_MIN); ONE(); break;
     case WO_DOUBLE: { double v = -1.5; uint64_t u; memcpy(&u, &v, 8); vf_put1(ref, 0x46); for (int i = 0; i < 8; i++) vf_put1(ref, (uint8_t) (u >> (8 * i))); ONE(); break; }
     case WO_STR_0: case WO_STR_1: case WO_STR_127: case WO_STR_128: case WO_STR_300: case WO_STRZ_AB: case WO_NAME_A:
-    case WO_BYT_0: case WO_BYT_1: case WO_BYT_128: {
-        size_t l = op == WO_STR_0 || op == WO_BYT_0 ? 0 : op == WO_STR_1 || op == WO_BYT_1 || op == WO_NAME_A ? 1 : op == WO_STR_127 ? 127 :
+    case WO_BYT_0: case WO_BYT_1: case WO_BYT_128: case WO_STR_40000: case WO_BYT_32768: {
+        size_t l = op == WO_STR_40000 ? 40000 : op == WO_BYT_32768 ? 32768 : op == WO_STR_0 || op == WO_BYT_0 ? 0 : op == WO_STR_1 || op == WO_BYT_1 || op == WO_NAME_A ? 1 : op == WO_STR_127 ? 127 :
                    op == WO_STR_128 || op == WO_BYT_128 ? 128 : op == WO_STR_300 ? 300 : 2;
         const uint8_t *src = op == WO_STRZ_AB ? (const uint8_t *) "ab" : op == WO_NAME_A ? (const uint8_t *) "a" : wexp_payload;
-        vf_put_int(ref, (op >= WO_BYT_0 && op <= WO_BYT_128) ? 0x18 : 0x14, (int64_t) l);
+        vf_put_int(ref, ((op >= WO_BYT_0 && op <= WO_BYT_128) || op == WO_BYT_32768) ? 0x18 : 0x14, (int64_t) l);
         ONE();                      /* descriptor */
         if (l) { a = ref->len; vf_put(ref, src, l); ONE(); }   /* payload */
         break;
@@ -102,6 +105,8 @@ static bool wexp_real_op(int op, binson_writer *w)
     case WO_BYT_0: return binson_write_bytes(w, wexp_payload, 0);
     case WO_BYT_1: return binson_write_bytes(w, wexp_payload, 1);
     case WO_BYT_128: return binson_write_bytes(w, wexp_payload, 128);
+    case WO_STR_40000: return binson_write_string_with_len(w, (const char *) wexp_payload, 40000);
+    case WO_BYT_32768: return binson_write_bytes(w, wexp_payload, 32768);
     case WO_RAW_0: return binson_write_raw(w, wexp_payload, 0);
     case WO_RAW_2: return binson_write_raw(w, (const uint8_t *) "\x44\x45", 2);
     case WO_P2W: {
@@ -326,7 +331,7 @@ static size_t wexp_ref_size(const int *seq, int n)
 static uint64_t wexp_index_base;
 static void wexp_explore(const wexp_cfg *cf, int w, int W, uint64_t start, const char *sigprefix)
 {
-    for (size_t i = 0; i < sizeof wexp_payload; i++) wexp_payload[i] = (uint8_t) (0x30 + i * 7);
+    for (size_t i = 0; i < sizeof wexp_payload; i++) wexp_payload[i] = (uint8_t) (0x30 + i * 7 + (i >> 8));
     int seq[16];
     uint64_t index = 0;
     for (int n = 0; n <= cf->K; n++) {
@@ -347,8 +352,21 @@ static void wexp_explore(const wexp_cfg *cf, int w, int W, uint64_t start, const
                     vf_count(CT_W_SEQS, 1);
                     size_t size = wexp_ref_size(seq, m);
                     wexp_mm mm;
-                    /* every capacity up to size+1, and at least 0..3 (reset refuses capacities below 2) */
+                    /* every capacity up to size+1, and at least 0..3 (reset refuses capacities below 2); for encodings longer
+                     * than 2000 bytes: every capacity within 3 of a piece boundary (all interior capacities of one payload
+                     * piece are alike: the piece is stored by a single bounded copy or not at all) */
+                    size_t bnd[40]; int nb = 0;
+                    if (size > 2000) {
+                        static vf_doc rr; wpiece pcs[4];
+                        rr.len = 0; bnd[nb++] = 0;
+                        for (int i = 0; i < m; i++) if (seq[i] < WO_FIRST_NOENC) { int np = wexp_ref_op(seq[i], &rr, pcs); for (int k = 0; k < np && nb < 40; k++) bnd[nb++] = pcs[k].off + pcs[k].len; }
+                    }
                     for (size_t cap = 0; cap <= (size + 1 > 3 ? size + 1 : 3); cap++) {
+                        if (nb) {
+                            bool near = false;
+                            for (int k = 0; k < nb; k++) if (cap + 3 >= bnd[k] && cap <= bnd[k] + 3) near = true;
+                            if (!near) { size_t nxt = size + 2; for (int k = 0; k < nb; k++) if (bnd[k] > cap + 3 && bnd[k] - 3 < nxt) nxt = bnd[k] - 3; cap = nxt - 1; continue; }
+                        }
                         vf_count(CT_W_RUNS, 1);
                         vf_count(CT_W_STATES, (uint64_t) m + 1);
                         if (!wexp_run(cf, seq, m, cap, &mm, true)) {
@@ -384,7 +402,7 @@ static int wexp_replay(const wexp_cfg *cf, const char *text)
 {
     char *cap = vf_replay_get(text, "capacity"), *ops = vf_replay_get(text, "ops");
     if (!cap || !ops) vf_die("writer replay lacks capacity/ops");
-    for (size_t i = 0; i < sizeof wexp_payload; i++) wexp_payload[i] = (uint8_t) (0x30 + i * 7);
+    for (size_t i = 0; i < sizeof wexp_payload; i++) wexp_payload[i] = (uint8_t) (0x30 + i * 7 + (i >> 8));
     int seq[16], n = 0;
     for (char *p = ops; *p && n < 16;) { while (*p == ' ') p++; if (!*p) break; seq[n++] = (int) strtol(p, &p, 10); }
     wexp_mm mm;
